@@ -91,7 +91,7 @@ class WireMonitors:
         if "C05" not in self.on:
             return
         for sj, orig in zip(payload["steps"], origs):
-            self.c05_step(orig, sj, msg["kind"])
+            self.guard("C05", self.c05_step, orig, sj, msg["kind"])
 
     def c05_step(self, orig, sj, site):
         sim = self.sim
@@ -204,10 +204,10 @@ class WireMonitors:
             js = json.loads(data.decode("utf-8"))
             if key == "doc" and isinstance(js, dict) and "doc" in js and "type" not in js:
                 js = js["doc"]
-            self.c05_doc(obj, js, site)
+            self.guard("C05", self.c05_doc, obj, js, site)
         elif what == "step":
             js = json.loads(data.decode("utf-8"))
-            self.c05_step(obj, js["step"] if "step" in js else js, site)
+            self.guard("C05", self.c05_step, obj, js["step"] if "step" in js else js, site)
 
     def c05_doc(self, doc, js, site):
         sim = self.sim
